@@ -15,6 +15,7 @@ fn main() {
         Some("config") => std::process::exit(config_case(&args[2..])),
         Some("comment") => std::process::exit(comment_case(&args[2], &args[3])),
         Some("markdown") => std::process::exit(markdown_case(&args[2], &args[3], &args[4])),
+        Some("rule-doc") => std::process::exit(rule_doc_case(&args[2], args.get(3).map(|s| s.as_str()).unwrap_or(""))),
         Some("spell-cache") => std::process::exit(spell_cache_case(&args[2], &args[3])),
         Some("remove-overlaps-raw") => {
             // prints the identity tags of the surviving lints, in output order (translation validation of mirsym)
@@ -551,4 +552,79 @@ fn markdown_case(kind: &str, x: &str, ignore_link_title: &str) -> i32 {
     }
     println!("markdown {:?} (ignore_link_title={}): {:?}", text, opts.ignore_link_title, toks.iter().map(|t| (t.span.start, t.span.end)).collect::<Vec<_>>());
     bad
+}
+
+
+/// C01 / C03 / C12 (per rule): the text is parsed as plain English and linted with the curated rule set (the named rule
+/// switched on). `words` is a JSON list of [word, metadata-or-null]: in mode `custom-dictionary` the dictionary is a
+/// MutableDictionary holding exactly these words with this metadata (a counterexample over dictionaries); otherwise the
+/// curated dictionary is used. The run must return normally and every lint must lie inside the text. If the spec has a
+/// `split` (the length of a first paragraph including its blank line), the lints of the whole text must equal those of
+/// the first paragraph followed by those of the rest shifted by `split` (C12).
+fn rule_doc_case(spec: &str, mode: &str) -> i32 {
+    use harper_core::linting::{Lint, LintGroup, Linter};
+    use harper_core::{Dialect, Dictionary, Document, FstDictionary, MutableDictionary, WordMetadata};
+    use std::sync::Arc;
+    let v: serde_json::Value = serde_json::from_str(spec).expect("JSON spec");
+    let text = v["text"].as_str().unwrap().to_string();
+    let rule = v["rule"].as_str().unwrap_or("").to_string();
+    let split = v["split"].as_u64().map(|x| x as usize);
+    fn lint_with(text: &str, rule: &str, dict: Arc<impl Dictionary + 'static>) -> (Vec<Lint>, i32) {
+        let len = text.chars().count();
+        let doc = Document::new_plain_english(text, &dict);
+        let mut group = LintGroup::new_curated(dict, Dialect::American);
+        if !rule.is_empty() {
+            // only the rule under test, so that differences are attributable to it
+            group.set_all_rules_to(Some(false));
+            group.config.set_rule_enabled(rule, true);
+        }
+        let lints = group.lint(&doc);
+        let mut bad = 0;
+        for l in &lints {
+            if l.span.start > l.span.end || l.span.end > len {
+                println!("VIOLATED: lint {:?} ({:?}) lies outside the text of {len} chars", l.span, l.message);
+                bad = 1;
+            }
+        }
+        println!("text {:?}: {} tokens, {} lints {:?}", text, doc.get_tokens().len(), lints.len(), lints.iter().map(|l| (l.span.start, l.span.end)).collect::<Vec<_>>());
+        (lints, bad)
+    }
+    fn all<D: Dictionary + 'static>(text: &str, rule: &str, split: Option<usize>, dict: Arc<D>) -> i32 {
+        let (whole, mut bad) = lint_with(text, rule, dict.clone());
+        if let Some(k) = split {
+            let chars: Vec<char> = text.chars().collect();
+            let p: String = chars[..k].iter().collect();
+            let d: String = chars[k..].iter().collect();
+            let (lp, b1) = lint_with(&p, rule, dict.clone());
+            let (mut ld, b2) = lint_with(&d, rule, dict);
+            bad |= b1 | b2;
+            for l in &mut ld {
+                l.span.start += k;
+                l.span.end += k;
+            }
+            let mut want = lp;
+            want.extend(ld);
+            if whole != want {
+                println!("VIOLATED: the lints of the whole text {:?} are not those of its first paragraph followed by those of the rest {:?}",
+                         whole.iter().map(|l| (l.span.start, l.span.end, &l.message)).collect::<Vec<_>>(),
+                         want.iter().map(|l| (l.span.start, l.span.end, &l.message)).collect::<Vec<_>>());
+                bad = 1;
+            }
+        }
+        bad
+    }
+    if mode == "custom-dictionary" {
+        let mut dict = MutableDictionary::new();
+        for w in v["words"].as_array().cloned().unwrap_or_default() {
+            let word: Vec<char> = w[0].as_str().unwrap().chars().collect();
+            if w[1].is_null() {
+                continue; // a word the dictionary does not know
+            }
+            let md: WordMetadata = serde_json::from_value(w[1].clone()).expect("word metadata");
+            dict.append_word(word, md);
+        }
+        all(&text, &rule, split, Arc::new(dict))
+    } else {
+        all(&text, &rule, split, FstDictionary::curated())
+    }
 }
